@@ -90,7 +90,7 @@ fn kv_random_access_body(packet: usize, granularity: usize) {
 	std::mem::forget(p);
 }
 
-// @h prop=C09 tier=quick kind=main timeout=400
+// @h prop=C09 tier=quick kind=main timeout=900
 // @bounds packet size 2, seek granularity 2 (seeks land on even frames, at or before the request); 5-frame stream; scheduler in ANY consistent state (decoder position, cached packet present or not); any requested index 0..6
 // @funcs DecodeScheduler::frame_at_index, DecodedChunk::frame_at_index
 // @catches the scheduler trusting the REQUESTED seek index instead of where the decoder actually landed (frames then come out shifted after every backwards seek / loop wrap); cached packet misindexed; wrong frame after skipping forwards
@@ -98,7 +98,7 @@ fn kv_random_access_body(packet: usize, granularity: usize) {
 #[kani::unwind(8)]
 fn c09_scheduler_random_access_packet2_granularity2() { kv_random_access_body(2, 2); }
 
-// @h prop=C09 tier=quick kind=main timeout=400
+// @h prop=C09 tier=quick kind=main timeout=900
 // @bounds packet size 1, seek granularity 3; otherwise as above
 // @funcs DecodeScheduler::frame_at_index
 #[kani::proof]
@@ -112,7 +112,7 @@ fn c09_scheduler_random_access_packet1_granularity3() { kv_random_access_body(1,
 #[kani::unwind(8)]
 fn c09_scheduler_random_access_packet3_granularity2() { kv_random_access_body(3, 2); }
 
-// @h prop=C09,C10 tier=quick kind=main timeout=400
+// @h prop=C09,C10 tier=quick kind=main timeout=900
 // @bounds ONE DecodeScheduler::run from any consistent state (any transport position / loop region, any decoder position), packet 2 / granularity 2, ring with free space; sound state Playing or Stopped (symbolic)
 // @funcs DecodeScheduler::run, DecodeScheduler::frame_at_index, Transport::increment_position
 // @catches frames not produced in transport order (start, loop wrap, end) or stamped with the wrong index; the thread not ending when the sound is Stopped or the end is reached; end flag not raised
@@ -141,7 +141,7 @@ fn c09_scheduler_run_emits_the_transport_frame_and_ends_at_the_end() {
 	std::mem::forget(p);
 }
 
-// @h prop=C10 tier=quick kind=main timeout=400
+// @h prop=C10 tier=quick kind=main timeout=900
 // @bounds ONE DecodeScheduler::run with a decoder whose next decode/seek FAILS, and one with the ring FULL
 // @funcs DecodeScheduler::run
 // @catches an error being swallowed (a frame produced anyway), a full ring not making the loop wait, or the loop waiting forever on a full ring after the sound was stopped
